@@ -19,6 +19,13 @@ CODE_SLOTS = {
 # (ITERABLE_COROUTINE is only set by types.coroutine), plus the __future__ flags future.c still records in 3.7-3.10
 COMPILER_EMITTABLE = ["OPTIMIZED", "NEWLOCALS", "VARARGS", "VARKEYWORDS", "NESTED", "GENERATOR", "NOFREE", "COROUTINE",
                       "ASYNC_GENERATOR", "barry_as_FLUFL", "annotations"]
+# Python/compile.c compute_code_flags: `flags |= (c->c_flags->cf_flags & PyCF_MASK)` - a __future__ flag handed to compile(..., flags=)
+# (what doctest, codeop and the REPLs do for code that runs in a module using the feature) is copied into co_flags of the module and of
+# every function in it, although the `from __future__ import` statement itself no longer sets it (Python/future.c: obsolete features)
+EMITTABLE_VIA_COMPILE_FLAGS = ["division", "absolute_import", "with_statement", "print_function", "unicode_literals", "generator_stop"]
+# Lib/types.py coroutine(): sets CO_ITERABLE_COROUTINE on a copy of a generator function's code object (a function-like code object the
+# standard library produces; the compiler never does)
+EMITTABLE_BY_STDLIB = ["ITERABLE_COROUTINE"]
 
 # Objects/lnotab_notes.txt
 LINE_LIMITS = {
